@@ -301,8 +301,10 @@ type chainObs struct {
 	M2Err   string      `json:"m2_err,omitempty"`
 	D2Equal bool        `json:"d2_equal"` // print(parse(d1)) == d1, byte-wise
 	D2Err   string      `json:"d2_err,omitempty"`
-	J1      printResult `json:"j1"`      // TransformJSONStringToDSL(TransformDSLToJSON(text))
-	JEqual  bool        `json:"j_equal"` // j1 == d1
+	M3Equal bool        `json:"m3_equal"` // parse(d2) == parse(d1) exactly: nothing changes further
+	D3Equal bool        `json:"d3_equal"` // print(parse(d2)) == d2, byte-wise: the text is then stable
+	J1      printResult `json:"j1"`       // TransformJSONStringToDSL(TransformDSLToJSON(text))
+	JEqual  bool        `json:"j_equal"`  // j1 == d1
 }
 
 type dslParseObs struct {
@@ -354,6 +356,16 @@ func dslParse(args []string) error {
 					d2 := guard(func() (string, error) { return transformer.TransformJSONProtoToDSL(m2) })
 					c.D2Equal = d2.OK && d2.Text == c.D1.Text
 					c.D2Err = d2.Err + d2.Panic
+					if d2.OK {
+						r3, m3 := parseDSL(d2.Text, false)
+						if r3.OK {
+							c.M3Equal = absEqual(r2.M, r3.M)
+							d3 := guard(func() (string, error) { return transformer.TransformJSONProtoToDSL(m3) })
+							c.D3Equal = d3.OK && d3.Text == d2.Text
+						} else {
+							c.D2Err = fmt.Sprint("second rendering does not parse: ", r3.Errs, r3.Panic)
+						}
+					}
 				} else {
 					c.M2Err = fmt.Sprint(r2.Errs, r2.Panic)
 				}
